@@ -19,9 +19,9 @@ import io
 import itertools
 
 PROP = 'C15'
-TARGETS = ['T15a', 'T15b', 'T15c', 'T15d', 'T15e', 'T15f', 'T15g', 'T15h']
+TARGETS = ['T15a', 'T15b', 'T15c', 'T15d', 'T15e', 'T15f', 'T15g', 'T15h', 'T15i']
 LEAN_MODULES = ['HdVerif.Props.C15']
-MODEL_MODULES = ['HdVerif.Model.SREvidence']
+MODEL_MODULES = ['HdVerif.Model.SREvidence', 'HdVerif.Model.SRDocument']
 NAMESPACE = 'HdVerif.C15'
 DRIVER = 'Drivers/C15.lean'
 RULE = ('one case = one (content tree, evidence list, document class, flags) construction (+ write/srread) or one '
@@ -176,7 +176,99 @@ def _doc_case(ctx, idx):
     as_seq = r.choice([0] * 14 + [1] * 5 + [2])   # 0 data set, 1 sequence of one, 2 sequence of two
     return {'idx': idx, 'pool': pool, 'cls': cls, 'root': root, 'spec': spec, 'refs': refs, 'evidence': evidence,
             'mode': mode, 'flags': flags, 'prev': prev, 'as_seq': as_seq, 'depth': depth, 'root_kind': root_kind,
-            'malformed': malformed}
+            'malformed': malformed, 'options': _draw_options(ctx.rng('options', idx))}
+
+
+# every optional argument of the document constructors that is not one of the `flags` (JSON-serialisable description; the
+# objects are built in `_option_kwargs`).  Drawn from a PRNG stream of its own: trees and evidence lists are unchanged.
+DEFAULT_OPTIONS = {'institution': None, 'department': None, 'procedure_codes': None, 'requested': None, 'observer_form': 'str',
+                   'manufacturer': 'verif', 'transfer_syntax': 'explicit'}
+PROCEDURE_CODES = [('P5-09051', 'SRT', 'Magnetic resonance imaging guided biopsy'), ('77477000', 'SCT', 'CT'),
+                   ('PROC-3', '99VERIF', 'third procedure')]
+
+
+def _draw_options(r):
+    return {'institution': r.choice([None, None, 'Verif Hospital']), 'department': r.choice([None, None, 'Radiology']),
+            'procedure_codes': r.choice([None, None, 0, 1, 2, 3]), 'requested': r.choice([None, None, None, 1, 2]),
+            'observer_form': r.choice(['str', 'str', 'PersonName']), 'manufacturer': r.choice(['verif', 'verif', None]),
+            'transfer_syntax': r.choice(['explicit', 'explicit', 'implicit'])}
+
+
+def _option_kwargs(o):
+    """keyword arguments of the constructor for an options description"""
+    import pydicom
+    from pydicom.sr.coding import Code
+    import highdicom as hd
+    kw = {'manufacturer': o['manufacturer'], 'institution_name': o['institution'], 'institutional_department_name': o['department']}
+    if o['procedure_codes'] is not None:
+        # Code and CodedConcept alternate (both are accepted spellings)
+        kw['performed_procedure_codes'] = [
+            (Code(*PROCEDURE_CODES[k]) if k % 2 == 0 else hd.sr.CodedConcept(*PROCEDURE_CODES[k]))
+            for k in range(o['procedure_codes'])]
+    if o['requested'] is not None:
+        items = []
+        for k in range(o['requested']):
+            it = pydicom.Dataset()
+            it.StudyInstanceUID = f'1.2.826.0.1.3680043.8.498.77.{k + 1}'
+            it.AccessionNumber = f'ACC{k}'
+            it.RequestedProcedureID = f'RP{k}'
+            it.RequestedProcedureDescription = f'procedure {k}'
+            it.RequestedProcedureCodeSequence = []
+            it.PlacerOrderNumberImagingServiceRequest = ''
+            it.FillerOrderNumberImagingServiceRequest = ''
+            it.ReferencedStudySequence = []
+            items.append(it)
+        kw['requested_procedures'] = items
+    kw['transfer_syntax_uid'] = {'explicit': '1.2.840.10008.1.2.1', 'implicit': '1.2.840.10008.1.2',
+                                 'jpeg': '1.2.840.10008.1.2.4.50'}[o['transfer_syntax']]
+    return kw
+
+
+def _check_options(ctx, case, ds, c, where):
+    """every option of the constructor shows in the data set exactly as given and nowhere else (read through pydicom only):
+    flags, verifying observer, institution, performed procedure codes, requested procedures"""
+    f = c['flags']
+    o = c.get('options') or DEFAULT_OPTIONS
+    probs = []
+    if ds.VerificationFlag != ('VERIFIED' if f['is_verified'] else 'UNVERIFIED'):
+        probs.append('VerificationFlag does not reflect is_verified')
+    if f['is_verified']:
+        vs = ds.get('VerifyingObserverSequence', [])
+        if len(vs) != 1 or str(vs[0].VerifyingObserverName) != f['observer'] or vs[0].VerifyingOrganization != f['organization']:
+            probs.append('verifying observer details not recorded as given: ' +
+                         repr([(str(v.get('VerifyingObserverName')), v.get('VerifyingOrganization')) for v in vs]))
+        elif 'VerificationDateTime' not in vs[0] or 'VerifyingObserverIdentificationCodeSequence' not in vs[0]:
+            probs.append('verifying observer item lacks VerificationDateTime / identification code sequence')
+    elif 'VerifyingObserverSequence' in ds:
+        probs.append('verifying observer recorded for an unverified document')
+    if ds.CompletionFlag != ('COMPLETE' if f['is_complete'] else 'PARTIAL'):
+        probs.append('CompletionFlag does not reflect is_complete')
+    if ds.PreliminaryFlag != ('FINAL' if f['is_final'] else 'PRELIMINARY'):
+        probs.append('PreliminaryFlag does not reflect is_final')
+    if o['institution'] is not None:
+        if ds.get('InstitutionName') != o['institution']:
+            probs.append(f'InstitutionName {ds.get("InstitutionName")!r} is not the institution given')
+        if o['department'] is not None and ds.get('InstitutionalDepartmentName') != o['department']:
+            probs.append('InstitutionalDepartmentName is not the department given')
+    elif 'InstitutionName' in ds:
+        probs.append('InstitutionName recorded though none given')
+    if o['department'] is None and 'InstitutionalDepartmentName' in ds:
+        probs.append('InstitutionalDepartmentName recorded though none given')
+    got = [(str(x.CodeValue), str(x.CodingSchemeDesignator), str(x.CodeMeaning)) for x in ds.get('PerformedProcedureCodeSequence', [])]
+    want = [PROCEDURE_CODES[k] for k in range(o['procedure_codes'] or 0)]
+    if got != want or 'PerformedProcedureCodeSequence' not in ds:
+        probs.append(f'performed procedure codes {got} are not the codes given {want}')
+    if o['requested'] is not None:
+        given = _option_kwargs(o)['requested_procedures']
+        if [canon(x) for x in ds.get('ReferencedRequestSequence', [])] != [canon(x) for x in given]:
+            probs.append('ReferencedRequestSequence is not the requested procedures given')
+    elif 'ReferencedRequestSequence' in ds:
+        probs.append('requested procedures recorded though none given')
+    if o['manufacturer'] is not None and ds.get('Manufacturer') != o['manufacturer']:
+        probs.append('Manufacturer is not the manufacturer given')
+    if probs:
+        ctx.fail(case, {'what': f'options of the constructor are not reflected in {where}', 'problems': probs[:4],
+                        'flags': f, 'options': o}, site='sr.flags')
 
 
 def _placement_cases(ctx):
@@ -327,6 +419,52 @@ def _coded_cases(ctx):
     return out
 
 
+def _option_cases(ctx):
+    """Systematic options: the full product is_verified x observer {none, str, PersonName} x organization x institution x
+    department x is_complete x is_final x performed procedure codes {none, [], 2 codes} on a small fixed tree (a container with
+    a TEXT and an IMAGE item), for every document class (quick tier: the classes in turn).  'Verification details are demanded
+    when a document is marked verified' whatever else is passed; every option shows in the data set as given."""
+    import highdicom as hd
+    from gen import srdocs
+    sr = hd.sr
+    out = []
+    idx = 0
+    dims = itertools.product((False, True), (None, 'str', 'PersonName'), (None, 'Org'), (None, 'Verif Hospital'),
+                             (None, 'Radiology'), (False, True), (False, True), (None, 0, 2))
+    for verified, obs, org, inst, dept, complete, final, codes_ in dims:
+        for k, cls in enumerate(SR_CLASSES):
+            if ctx.tier == 'quick' and not ctx.search_mode and idx % 3 != k:
+                continue
+            r = ctx.rng('optcase', idx * 3 + k)
+            pool = srdocs.instance_pool(r, max_studies=1)
+            ids = srdocs._Ids()
+            name = sr.CodedConcept(value='121071', scheme_designator='DCM', meaning='Finding')
+
+            def cspec(vt, rel, ref=None):
+                return {'id': ids.next(), 'vt': vt, 'name': ('121071', 'DCM'), 'rel': rel, 'ref': ref, 'has_seq': False, 'children': []}
+            root = sr.ContainerContentItem(name=name)
+            rspec = cspec('CONTAINER', None)
+            rspec['attrs'] = ['ValueType', 'ConceptNameCodeSequence', 'ContinuityOfContent']
+            p0 = pool[0]
+            kids = [(sr.TextContentItem(name=name, value='t', relationship_type='CONTAINS'), cspec('TEXT', 'CONTAINS')),
+                    (sr.ImageContentItem(name=name, referenced_sop_class_uid=p0['cls'], referenced_sop_instance_uid=p0['inst'],
+                                         relationship_type='CONTAINS'), cspec('IMAGE', 'CONTAINS', (p0['cls'], p0['inst'])))]
+            root.ContentSequence = sr.ContentSequence([a for a, _ in kids])
+            rspec['has_seq'] = True
+            rspec['children'] = [b for _, b in kids]
+            out.append({'idx': 300000 + idx * 3 + k, 'pool': pool, 'cls': cls, 'root': root, 'spec': rspec,
+                        'refs': srdocs.referenced(rspec), 'evidence': [p['ds'] for p in pool], 'mode': 'all',
+                        'flags': {'record_evidence': True, 'is_complete': complete, 'is_final': final, 'is_verified': verified,
+                                  'observer': None if obs is None else 'Smith^John', 'organization': org},
+                        'options': dict(DEFAULT_OPTIONS, institution=inst, department=dept, procedure_codes=codes_,
+                                        observer_form=obs or 'str', requested=(1 if idx % 5 == 0 else None),
+                                        transfer_syntax=('implicit' if idx % 7 == 0 else 'explicit')),
+                        'prev': None, 'as_seq': 0, 'depth': 1, 'root_kind': 'container', 'light': idx % 8 != 0,
+                        'option_case': (verified, obs, org, inst, dept, complete, final, codes_)})
+        idx += 1
+    return out
+
+
 def _expected(c):
     """Oracle over construction parameters: reasons the constructor must refuse, and the expected partition."""
     from gen import srdocs
@@ -367,11 +505,16 @@ def _build(c):
     elif c['as_seq'] == 2:
         content = Sequence([c['root'], copy.deepcopy(c['root'])])
     f = c['flags']
+    o = c.get('options') or DEFAULT_OPTIONS
+    observer = f['observer']
+    if observer is not None and o['observer_form'] == 'PersonName':
+        from pydicom.valuerep import PersonName
+        observer = PersonName(observer)
     return K(evidence=c['evidence'], content=content, series_instance_uid='1.2.826.0.1.3680043.8.498.1',
-             series_number=1, sop_instance_uid='1.2.826.0.1.3680043.8.498.1.1', instance_number=1, manufacturer='verif',
+             series_number=1, sop_instance_uid='1.2.826.0.1.3680043.8.498.1.1', instance_number=1,
              is_complete=f['is_complete'], is_final=f['is_final'], is_verified=f['is_verified'],
-             verifying_observer_name=f['observer'], verifying_organization=f['organization'],
-             previous_versions=c['prev'], record_evidence=f['record_evidence'])
+             verifying_observer_name=observer, verifying_organization=f['organization'],
+             previous_versions=c['prev'], record_evidence=f['record_evidence'], **_option_kwargs(o))
 
 
 def _check_partition(ctx, case, site, cur_nested, oth_nested, current, other, record):
@@ -507,6 +650,12 @@ def _check_doc(ctx, c, reqs, pending):
              depth=c['depth'], n_items=min(sum(1 for _ in srdocs.walk(spec)), 40), n_referenced=min(n_ref, 12),
              n_other=min(n_oth, 12), record=c['flags']['record_evidence'], verified=c['flags']['is_verified'],
              studies=len({p['study'] for p in c['pool']}), as_seq=c['as_seq'], root=c['root_kind'])
+    o_ = c.get('options') or DEFAULT_OPTIONS
+    for k_, v_ in (('opt_institution', f'{o_["institution"] is not None}/{o_["department"] is not None}'),
+                   ('opt_procedure_codes', o_['procedure_codes']), ('opt_requested', o_['requested']),
+                   ('opt_observer', o_['observer_form'] if c['flags']['observer'] is not None else 'none'),
+                   ('opt_transfer_syntax', o_['transfer_syntax']), ('opt_manufacturer', o_['manufacturer'] is not None)):
+        ctx.hist(k_, v_)
     if ok:
         def forms(sp, d):
             for role, form, _ in sp.get('codes', ()):
@@ -518,11 +667,18 @@ def _check_doc(ctx, c, reqs, pending):
         forms(spec, 0)
     # ---- model request (L0: ok-vs-error, evidence sequences, get_evidence)
     f = c['flags']
-    reqs.append(('buildSR', {'cls': c['cls'], 'tree': spec_to_model(spec), 'evidence': evd_to_model(c['evidence']),
-                             'record': f['record_evidence'], 'verified': f['is_verified'],
-                             'observer': f['observer'] is not None, 'organization': f['organization'] is not None,
-                             'n_roots': {0: 1, 1: 1, 2: 2}[c['as_seq']],
-                             'previous': evd_to_model(c['prev']) if c['prev'] is not None else None}))
+    o = c.get('options') or DEFAULT_OPTIONS
+    reqs.append(('constructSR', {'cls': c['cls'], 'tree': spec_to_model(spec), 'evidence': evd_to_model(c['evidence']),
+                                 'record': f['record_evidence'], 'verified': f['is_verified'],
+                                 'n_roots': {0: 1, 1: 1, 2: 2}[c['as_seq']],
+                                 'previous': evd_to_model(c['prev']) if c['prev'] is not None else None,
+                                 'options': {'is_complete': f['is_complete'], 'is_final': f['is_final'], 'observer': f['observer'],
+                                             'organization': f['organization'], 'institution': o['institution'],
+                                             'department': o['department'],
+                                             'procedure_codes': None if o['procedure_codes'] is None else
+                                             ['|'.join(PROCEDURE_CODES[k]) for k in range(o['procedure_codes'])],
+                                             'requested': None if o['requested'] is None else [f'RP{k}' for k in range(o['requested'])],
+                                             'transfer_syntax': _option_kwargs(o)['transfer_syntax_uid']}}))
     # ---- oracle: refusal
     if reasons:
         if ok:
@@ -614,18 +770,8 @@ def _check_doc(ctx, c, reqs, pending):
     gsc = [tuple(map(str, t)) for t in doc.get_evidence_series(current_procedure_only=True)]
     if sorted(gsc) != sorted({(a, b) for a, b, _, _ in current}):
         ctx.fail(case, 'get_evidence_series(current_procedure_only=True) wrong', site='get_evidence_series')
-    # ---- flags / verification / predecessors
-    if doc.VerificationFlag != ('VERIFIED' if f['is_verified'] else 'UNVERIFIED'):
-        ctx.fail(case, 'VerificationFlag does not reflect is_verified', site='sr.flags')
-    if f['is_verified']:
-        vs = doc.get('VerifyingObserverSequence', [])
-        if len(vs) != 1 or str(vs[0].VerifyingObserverName) != f['observer'] or vs[0].VerifyingOrganization != f['organization']:
-            ctx.fail(case, 'verifying observer details not recorded', site='sr.flags')
-    elif 'VerifyingObserverSequence' in doc:
-        ctx.fail(case, 'verifying observer recorded for an unverified document', site='sr.flags')
-    if doc.CompletionFlag != ('COMPLETE' if f['is_complete'] else 'PARTIAL') or \
-            doc.PreliminaryFlag != ('FINAL' if f['is_final'] else 'PRELIMINARY'):
-        ctx.fail(case, 'completion / preliminary flag wrong', site='sr.flags')
+    # ---- flags / verification / every other option / predecessors
+    _check_options(ctx, case, doc, c, 'the document')
     if c['prev'] is not None:
         got = sorted(rows_of(flatten_seq(doc.get('PredecessorDocumentsSequence', []))))
         want = sorted((str(p.StudyInstanceUID), str(p.SeriesInstanceUID), str(p.SOPInstanceUID), str(p.SOPClassUID))
@@ -635,6 +781,9 @@ def _check_doc(ctx, c, reqs, pending):
                      site='sr.predecessors')
     elif 'PredecessorDocumentsSequence' in doc:
         ctx.fail(case, 'predecessors recorded though none given', site='sr.predecessors')
+    if c.get('light'):
+        # options stream: the tree is a fixed small one; searching / writing / parsing are exercised on every 8th case
+        return
     # ---- find_content_items on the real tree vs model (ids), a few random queries
     r = ctx.rng('find', c['idx'])
     for q in range(3):
@@ -685,6 +834,7 @@ def _check_doc(ctx, c, reqs, pending):
     # the written bytes, read with pydicom alone (no highdicom parsing in between)
     written = pydicom.dcmread(io.BytesIO(blob))
     ctx.case(path='written-bytes')
+    _check_options(ctx, case, written, c, 'the written file')
     # (the caller's tree was edited above, after construction; `before` is the tree as given)
     if canon(_root_part(written)) != before:
         ctx.fail(case, 'the content tree in the written file differs from the tree the document was given', site='sr.write/content')
@@ -777,7 +927,15 @@ def _impl_doc(doc):
                    'get_evidence_current': [list(map(str, t)) for t in doc.get_evidence(current_procedure_only=True)],
                    'get_evidence_series': [list(map(str, t)) for t in doc.get_evidence_series()],
                    'verification': str(doc.VerificationFlag), 'completion': str(doc.CompletionFlag),
-                   'preliminary': str(doc.PreliminaryFlag)})
+                   'preliminary': str(doc.PreliminaryFlag),
+                   'observers': [[str(v.get('VerifyingObserverName')), str(v.get('VerifyingOrganization'))]
+                                 for v in doc.get('VerifyingObserverSequence', [])],
+                   'institution': (str(doc.InstitutionName) if 'InstitutionName' in doc else None),
+                   'department': (str(doc.InstitutionalDepartmentName) if 'InstitutionalDepartmentName' in doc else None),
+                   'procedure_codes': ['|'.join((str(x.CodeValue), str(x.CodingSchemeDesignator), str(x.CodeMeaning)))
+                                       for x in doc.get('PerformedProcedureCodeSequence', [])],
+                   'requested': ([str(x.get('RequestedProcedureID')) for x in doc.ReferencedRequestSequence]
+                                 if 'ReferencedRequestSequence' in doc else None)})
 
 
 # ------------------------------------------------------------------ key object selection documents
@@ -1224,6 +1382,13 @@ def run(ctx):
     ctx.exhaustive.append('code forms: {scheme version, long code value, long + version, URN code value, URN + version, context group '
                           'attributes} on every coded name, on a CODE value and on a NUM unit and qualifier x depth 1..4 x parent '
                           '{container, NUM, CODE}')
+    for c in _option_cases(ctx):
+        _check_doc(ctx, c, reqs, pending)
+        ctx.hist('option_case', f'verified={c["option_case"][0]}/observer={c["option_case"][1]}/organization={c["option_case"][2] is not None}'
+                                f'/institution={c["option_case"][3] is not None}')
+    ctx.exhaustive.append('options: is_verified x observer {none, str, PersonName} x organization x institution x department x '
+                          'is_complete x is_final x performed procedure codes {none, [], 2} x 3 document classes'
+                          + (' (quick tier: classes in turn)' if ctx.tier == 'quick' else ''))
     for idx in range(ctx.n(700, 6000)):
         _check_doc(ctx, _doc_case(ctx, idx), reqs, pending)
     for idx in range(ctx.n(300, 2500)):
@@ -1313,7 +1478,13 @@ def _real_segmentations(ctx):
 
 def _run_one(ctx, case, reqs, pending):
     s = case.get('stream')
-    if s == 'doc' and case['idx'] >= 200000:
+    if s == 'doc' and case['idx'] >= 300000:
+        # (the quick tier generates a third of the option cases: replay looks the case up in the full product)
+        full = type(ctx)(ctx.prop, 'thorough', ctx.seed, 1, ctx.driver)
+        for c in _option_cases(full):
+            if c['idx'] == case['idx']:
+                _check_doc(ctx, c, reqs, pending)
+    elif s == 'doc' and case['idx'] >= 200000:
         for c in _coded_cases(ctx):
             if c['idx'] == case['idx']:
                 _check_doc(ctx, c, reqs, pending)
